@@ -13,7 +13,7 @@ ALL = ['C%02d' % i for i in range(1, 21)]
 checks, na = [], []
 for pid in ALL:
     p = os.path.join(VERIF, 'harness', pid.lower(), 'prop.py')
-    if not os.path.exists(p):
+    if not os.path.exists(p) or not os.path.exists(os.path.join(VERIF, 'harness', pid.lower(), 'READY')):
         na.append({'property_id': pid, 'reason': 'check not built yet (design in DESIGN.md section 4); not claimed until its model, theorems and correspondence run exist'})
         continue
     m = importlib.import_module('harness.%s.prop' % pid.lower())
